@@ -84,9 +84,10 @@ def input_values(model, inputs):
     return out
 
 
-def build_query(o, rounds=3, extra_rules=()):
+def build_query(o, rounds=3, extra_rules=(), fuel=1):
     ax = Axioms(rounds=rounds)
     ax.extra_rules = list(extra_rules)
+    ax.fuel = fuel
     neg = z3.Not(o.goal)
     inst = ax.feed(list(o.hyps) + [neg])
     return list(o.hyps) + inst, neg, ax
@@ -119,12 +120,14 @@ def run_cli(name, cmd, path, timeout):
         return name, "unknown", time.time() - t0, "timeout"
 
 
-def discharge(o, quick_ms=4000, cli_timeout=20, outdir=None, extra_rules=(), rounds=3, want_model=True):
+def discharge(o, quick_ms=4000, cli_timeout=20, outdir=None, extra_rules=(), rounds=3, want_model=True, fuel=1):
     t0 = time.time()
+    if getattr(o, "inline", None):
+        return Status(o, "discharged", o.inline, getattr(o, "inline_secs", 0.0), detail={"axioms": []})
     g = z3.simplify(o.goal)
     if z3.is_true(g):
         return Status(o, "discharged", "simplifier", time.time() - t0)
-    hyps, neg, ax = build_query(o, rounds=rounds, extra_rules=extra_rules)
+    hyps, neg, ax = build_query(o, rounds=rounds, extra_rules=extra_rules, fuel=fuel)
     from .seqabs import AbsSolver
     try:
         a = AbsSolver(quick_ms)
